@@ -33,6 +33,9 @@ checks={
  "C03":dict(engine="E3",cat="exploration",tech=E3T,
    text="all 65536 type codes probed; for each of 37 pack types (factory-registered and unregistered server-monitoring packs) every object with at most 1 (2 thorough) reflected field slots deviating from two bases over boundary alphabets is encoded, decoded, checked for same concrete type, exact consumption and byte-identical re-encode; a pinned carried-field baseline catches a field dropped from writer and reader alike; record-list packs (0-3 records, every single-field deviation of each record type, every record version), zip / log-sink zip (every inner sequence up to length 2 (3), thresholds len-1/len/len+1) return records unchanged, in order and stamped",
    note="constructor invariants preserved; wire-equivalence instead of field equality; known findings: ServerInfoPack writer/reader disagreement, CounterPack1 poid meter",ref="DESIGN.md 4 C03"),
+ "C04":dict(engine="E4",cat="fault_enumeration",tech="fault enumeration: every truncation point of every corpus encoding and every hostile overwrite window, decoded by the real decoders; allocation measured per decode; worker processes restarted after a fatal error and the fatal input reported",
+   text="corpus of ~4600 distinct valid encodings (values, 37 pack types with every single-slot deviation, steps, transaction/service records, UDP packs per family); every strict prefix (777k) must end in a recovered panic; every primitive read on every short buffer; all unknown value/step/pack tags; hostile 1/2/4/5-byte overwrites at every offset (quick: first 48 offsets of three encodings per kind) with the bytes allocated during the decode bounded by 64*len+1MiB, in single-threaded workers that are restarted after a fatal out-of-memory and report the killing input",
+   note="16-bit counts may pre-allocate a few hundred KiB (inside the 1 MiB slack); 2^31-scale lengths only reach ReadBytes, which checks before allocating",ref="DESIGN.md 4 C04"),
  "C07":dict(engine="E3",cat="exploration",tech=E3T,
    text="all 256 type bytes probed (18 types); versions = every literal compared with Ver in the udp sources +-1 plus family borders (~60); for every (type, version) every field assignment with at most 1 (2) deviating slots is written and read back at the same version (consumed exactly, byte-identical re-encode, judged after Process() where Process completes decoding); every acquire/fill/release history up to depth 4 (6) over two handles returns clean packs and the released object itself is inspected; every connection string of up to 3 (4) key=value tokens over four separators loses its password value after Process() at Go/PHP versions and is unchanged at the others",
    note="version list is regenerated from /repo sources at run time; password key matching is the literal key 'password'",ref="DESIGN.md 4 C07"),
@@ -60,8 +63,8 @@ m={
  "engines":[
   {"name":"E1 scheduler+DFS","path":"harness/shim/sched harness/shim/vsync harness/shim/vtime harness/engine/dfs","serves_properties":[k for k,v in checks.items() if "E1" in v["engine"]],"kind_free_text":"cooperative scheduler over hooked sync/time/net operations; stateless DFS over schedules and environment answers with preemption/fault bounds"},
   {"name":"E2 explicit-state BFS","path":"harness/engine/seqx","serves_properties":[k for k,v in checks.items() if "E2" in v["engine"]],"kind_free_text":"BFS over operation histories of real objects, replay from scratch per transition, canonical heap hashing, lock-step reference model"},
-  {"name":"E3 bounded exhaustive enumeration","path":"harness/engine/enum","serves_properties":[k for k,v in checks.items() if "E3" in v["engine"]],"kind_free_text":"full ranges, boundary alphabets and k-deviation assignments, checked against independent reference encoders"},
-  {"name":"E4 fault enumeration","path":"harness/engine/fault","serves_properties":[k for k,v in checks.items() if "E4" in v["engine"]],"kind_free_text":"every truncation point, hostile overwrite windows, crash images of an operation log"},
+  {"name":"E3 bounded exhaustive enumeration","path":"harness/engine/enum harness/refenc","serves_properties":[k for k,v in checks.items() if "E3" in v["engine"]],"kind_free_text":"full ranges, boundary alphabets and k-deviation assignments, checked against independent reference encoders"},
+  {"name":"E4 fault enumeration","path":"harness/props/c04 harness/shim/vos","serves_properties":[k for k,v in checks.items() if "E4" in v["engine"]],"kind_free_text":"every truncation point, hostile overwrite windows, crash images of an operation log"},
  ],
  "checks":[
   {"property_id":k,"quick_cmd":"bin/check %s quick"%k,"thorough_cmd":"bin/check %s thorough"%k,"evidence_file":"evidence/%s.json"%k,
